@@ -89,6 +89,7 @@ SITES = {
     'iter_any': r'\.\s*iter\s*\(\s*\)\s*\.\s*any\s*\(',
     'is_some_and': r'\.\s*is_some_and\s*\(',
     'is_none_or': r'\.\s*is_none_or\s*\(',
+    'is_ok_and': r'\.\s*is_ok_and\s*\(',
     'or_else': r'\.\s*or_else\s*\(',
     'unwrap_or_else': r'\.\s*unwrap_or_else\s*\(',
     'map_err_const': r'\.\s*map_err\s*\(',
@@ -294,6 +295,8 @@ def apply(text, args):
                '%s__t4_hit }') % (recv.strip(), pat, stop_if, '!' if kind == 'iter_all' else '')
     elif kind == 'is_some_and':
         new = '(match %s { Some(%s) => %s, None => false })' % (recv.strip(), pat, body)
+    elif kind == 'is_ok_and':
+        new = '(match %s { Ok(%s) => %s, Err(_) => false })' % (recv.strip(), pat, body)
     elif kind == 'is_none_or':
         new = '(match %s { Some(%s) => %s, None => true })' % (recv.strip(), pat, body)
     elif kind == 'or_else':
